@@ -187,7 +187,9 @@ fn depth_sweep(op: &str, shape: usize, stack_kib: usize, bound: usize, with_grid
                 let kind = if stderr_tail.contains("overflowed its stack") || signal == Some(11) || signal == Some(6) && stderr_tail.contains("stack") { "stack-overflow" } else if stderr_tail.contains("memory allocation") { "allocation-failure" } else { "abort" };
                 // an abort inside the exhaustively swept range is a different (much worse) event than
                 // the recorded deep-recursion findings, and is never matched by them
-                let class = if *n <= bound { format!("depth:{}:{}:within-exhaustive-bound", op, kind) } else { format!("depth:{}:{}", op, kind) };
+                // (fixed threshold, independent of the tier: 1,024 levels = 2 KiB of stack per level on the small stack)
+                let _ = bound;
+                let class = if *n <= 1024 { format!("depth:{}:{}:at-or-below-1024-levels", op, kind) } else { format!("depth:{}:{}", op, kind) };
                 acc.vio(&class, || json!({"op": op, "shape": SHAPES[shape], "stack_kib": stack_kib, "smallest_failing_depth": n, "signal": signal, "code": code, "stderr": stderr_tail}));
                 break;
             }
